@@ -5,6 +5,13 @@ import (
 	"math/rand/v2"
 	"time"
 
+	"net"
+
+	"github.com/scionproto/scion/pkg/slayers/path"
+	"github.com/scionproto/scion/pkg/slayers/path/epic"
+	"github.com/scionproto/scion/pkg/slayers/path/onehop"
+	"github.com/scionproto/scion/pkg/slayers/path/scion"
+
 	"verif/mon"
 	"verif/rfix"
 )
@@ -50,8 +57,12 @@ func checkC07(r *mon.Run) {
 		for i := 0; i < per; i++ {
 			c07Case(r, rng, s, i)
 		}
+		for i := 0; i < per/10; i++ {
+			c07OneHop(r, rng, s, i)
+		}
 	}
-	r.Require(int64(nStars*per)/2, 40, "forwarded_compared", "delivered_compared", "segid_changed", "currhf_changed")
+	r.RequireClasses("onehop/outgoing/forwarded", "onehop/incoming/delivered")
+	r.Require(int64(nStars*per)/2, 40, "forwarded_compared", "delivered_compared", "segid_changed", "currhf_changed", "epic_compared")
 }
 
 func c07Case(r *mon.Run, rng *rand.Rand, s *rfix.Star, idx int) {
@@ -75,7 +86,16 @@ func c07Case(r *mon.Run, rng *rand.Rand, s *rfix.Star, idx int) {
 	}
 	ext := rng.IntN(4)
 	l4 := rng.IntN(5)
+	asEPIC := rng.IntN(4) == 0 && sc.Spec.Cur+1 < sc.Spec.NumHops()-2
 	in, err := sc.Packet(rng, func(p *rfix.PktSpec) {
+		if asEPIC {
+			p.Path = &epic.Path{
+				PktID: epic.PktID{Timestamp: uint32(rng.IntN(1 << 30)), Counter: uint32(rng.IntN(1 << 30))},
+				PHVF:  []byte{1, 2, 3, 4}, LHVF: []byte{5, 6, 7, 8},
+				ScionPath: rfix.RawPath(p.Path.(*scion.Decoded)),
+			}
+			p.PathType = 3
+		}
 		p.HBH, p.E2E = ext&1 != 0, ext&2 != 0
 		p.L4 = []int{rfix.L4UDP, rfix.L4TCP, rfix.L4SCMPEchoReq, rfix.L4Unknown, rfix.L4SCMPEchoRep}[l4]
 		p.Payload = make([]byte, rng.IntN(1200))
@@ -143,7 +163,10 @@ func c07Case(r *mon.Run, rng *rand.Rand, s *rfix.Star, idx int) {
 	} else {
 		r.Event("forwarded_compared")
 	}
-	r.Class(fmt.Sprintf("%s/%s/ext%d/l4-%d/egOwned=%v/segid=%v/curr=%v", sc.Shape, ing, ext, l4, sc.EgOwned, changed["segid"], changed["meta-curr"]))
+	r.Class(fmt.Sprintf("%s/%s/ext%d/l4-%d/epic=%v/egOwned=%v/segid=%v/curr=%v", sc.Shape, ing, ext, l4, asEPIC, sc.EgOwned, changed["segid"], changed["meta-curr"]))
+	if asEPIC {
+		r.Event("epic_compared")
+	}
 	if r.WantSample() && idx%2999 == 0 {
 		r.Sample(witness(s, sc, fmt.Sprintf("changed=%v", changed), in, &res))
 	}
@@ -197,4 +220,83 @@ func c07Field(h *rfix.Hdr, i int) string {
 		}
 	}
 	return "path-other"
+}
+
+// c07OneHop: a one-hop packet leaving the AS may change only in the segment
+// identifier; one entering the AS (completed here) only in the second hop field.
+func c07OneHop(r *mon.Run, rng *rand.Rand, s *rfix.Star, idx int) {
+	var owned []rfix.IfSpec
+	for _, f := range s.Cfg.Ifs {
+		if f.Owned {
+			owned = append(owned, f)
+		}
+	}
+	f := owned[rng.IntN(len(owned))]
+	outgoing := rng.IntN(2) == 0
+	ts := uint32(time.Now().Unix() - int64(rng.IntN(600)) - 5)
+	segID := uint16(rng.IntN(1 << 16))
+	oh := &onehop.Path{Info: path.InfoField{ConsDir: true, SegID: segID, Timestamp: ts}}
+	ps := &rfix.PktSpec{SrcHost: rfix.RandHost(rng), DstHost: rfix.RandHost(rng), Path: oh, PathType: 2,
+		TC: uint8(rng.IntN(256)), FlowID: uint32(rng.IntN(1 << 20)), L4: rfix.L4UDP, SrcPort: 1000, DstPort: 2000,
+		Payload: make([]byte, rng.IntN(300)), HBH: rng.IntN(4) == 0, E2E: rng.IntN(4) == 0}
+	for i := range ps.Payload {
+		ps.Payload[i] = byte(rng.IntN(256))
+	}
+	var in rfix.Ingress
+	if outgoing {
+		full := rfix.HopMAC(s.Cfg.HopKey, segID, ts, 63, 0, f.ID)
+		oh.FirstHop = path.HopField{ConsEgress: f.ID, ExpTime: 63}
+		copy(oh.FirstHop.Mac[:], full[:6])
+		ps.SrcIA, ps.DstIA = s.Cfg.IA, f.Remote
+		in = rfix.Ingress{IfID: 0, Src: &net.UDPAddr{IP: ps.SrcHost.IP().AsSlice(), Port: 1000}}
+	} else {
+		// first hop issued by the neighbour: any MAC, we cannot and need not check it
+		oh.FirstHop = path.HopField{ConsEgress: uint16(1 + rng.IntN(60000)), ExpTime: 63}
+		for i := range oh.FirstHop.Mac {
+			oh.FirstHop.Mac[i] = byte(rng.IntN(256))
+		}
+		ps.SrcIA, ps.DstIA = f.Remote, s.Cfg.IA
+		in = rfix.Ingress{IfID: f.ID}
+	}
+	raw, err := ps.Build()
+	if err != nil {
+		r.Inconclusive("build-error")
+		return
+	}
+	res := s.Process(raw, in)
+	r.Eval(1)
+	dir := "incoming"
+	if outgoing {
+		dir = "outgoing"
+	}
+	if res.Panic != "" {
+		r.Violation("C07:panic:"+mon.PanicSite(res.Stack), "panic", witness(s, nil, "onehop-"+dir, raw, &res))
+		return
+	}
+	if !res.Forwarded() {
+		r.Class("onehop/" + dir + "/refused")
+		return
+	}
+	h, err := rfix.ParseHdr(raw)
+	if err != nil || len(res.Out) != len(raw) {
+		r.Violation("C07:length-changed", "one-hop packet changed length", witness(s, nil, "onehop-"+dir, raw, &res))
+		return
+	}
+	for i := range raw {
+		if raw[i] == res.Out[i] {
+			continue
+		}
+		segid := i == h.InfoOff[0]+2 || i == h.InfoOff[0]+3
+		second := i >= h.HopOff[1] && i < h.HopOff[1]+12
+		if (outgoing && !segid) || (!outgoing && !second && !segid) {
+			r.Violation("C07:changed:onehop-"+dir, fmt.Sprintf("byte %d of a one-hop packet changed from %#02x to %#02x outside segment identifier / second hop field", i, raw[i], res.Out[i]), witness(s, nil, "onehop-"+dir, raw, &res))
+			return
+		}
+	}
+	if outgoing {
+		r.Class("onehop/outgoing/forwarded")
+	} else {
+		r.Class("onehop/incoming/delivered")
+	}
+	r.Event("onehop_compared")
 }
